@@ -32,7 +32,10 @@ theorem ops_under_deadline (cfg : Cfg) (hs : cfg.server = false) (ht : cfg.timeo
   obtain ⟨s, t, p⟩ := cfg
   cases s <;> cases t <;> cases p <;> simp_all [plan]
 
-/-- the server never closes before it has written, and never writes after a failure -/
+/-- in the plan machine nothing is written after the failing operation: the executed sequence is the plan up to
+    the failure followed (for a non-close failure) by one close. (By definition of `Plan.exec`; the content of C16 is
+    that the operation sequences RECORDED from the real Dial / Upgrade equal `exec` for every configuration and every
+    failing operation — stream hsfault.) -/
 theorem no_write_after_failure (cfg : Cfg) (k : Nat) (hk : k < (plan cfg).length) :
     ((exec (plan cfg) (some k)).ops.drop (k + 1)) = [.c] := by
   unfold exec; simp [hk]
